@@ -115,6 +115,19 @@ Proof.
     eapply list_over_mono; [|exact Hs]. lia.
 Qed.
 
+(* within the header-list limit the fold is the automaton *)
+Lemma fields_loop_vrun cfg fs h :
+  list_over cfg (hd_headerListSize h + fsize fs) = false ->
+  fields_loop cfg h fs =
+  match vrun cfg (vabs h) fs with
+  | inl code => inl (EReset code)
+  | inr st' => inr (hdr_of h st' (hd_headerListSize h + fsize fs) (hd_blockFields h + N.of_nat (length fs)) (req_fold (hd_req h) fs))
+  end.
+Proof.
+  intro H. destruct (vrun cfg (vabs h) fs) as [code|st'] eqn:V;
+    [apply fields_loop_inl | apply fields_loop_inr]; assumption.
+Qed.
+
 (* over the header-list limit: some field is refused (with GOAWAY(ENHANCE_YOUR_CALM) if it is the one that
    crosses the limit, with the stream error of an earlier invalid field otherwise) *)
 Lemma fields_loop_over cfg : forall fs h,
